@@ -204,65 +204,64 @@ def check(ctx: Ctx) -> None:
     al = local_aliases(repo, fi)
     cfg = build_cfg(repo, fi, Oracle(repo, fi, precise=True))
     with ctx.obligation("C09.d", "loop-exit-guard") as ob:
-        fetch0 = [n for n in cfg.nodes if n.kind == "stmt" and isinstance(n.ast, ast.Assign) and isinstance(n.ast.targets[0], ast.Name)
-                  and nexpr(repo, fi, n.ast.value, al) == MAILBOX and n.id in cfg.live()]
-        ob.require(len(fetch0) == 1, "mailbox fetch not found in the primary loop")
-        rv = fetch0[0].ast.targets[0].id
-        waits0 = cfg_nodes_with_call(cfg, lambda c: callee_attr(c) == "wait")
-        ob.require(bool(waits0), "ready.wait() missing in primary loop")
-        n_exits = 0
+        # on value terms; the mailbox and the shutdown flag are *volatile* (another thread writes them): every read is a
+        # value of its own, so `reply is self._primary_thread_task` really compares the fetched task with a second read
+        from ..terms import NONE as _NONE, Evaluator as _Evaluator, const as _c
+        evp = _Evaluator(repo, fi, cfg)
+        evp.volatile = {MAILBOX, "self._shuttingdown"}
+        LOCKT = ("sym", "self._running_lock")
+        heads = {n.id for n in cfg.nodes if n.kind in ("test", "for") and isinstance(n.owner, (ast.While, ast.For))}
+        n_exits = n_iter = 0
         sd_exit = False
-        for path in cfg.paths_between(fetch0[0].id, {w.id for w in waits0}, limit=4000):
-            if path[-1][0] != cfg.exit.id:
-                continue  # next iteration or exception
-            f = path_facts(repo, fi, cfg, path)
-            if f is None:
+        seen_clear = set()
+        for (pth, st_) in evp.run(back_stops=heads, limit=40000):
+            waits_ = [e for e in st_.events if e.kind == "call" and e.callee == f"{READY}.wait"]
+            if not waits_:
                 continue
-            n_exits += 1
-            none_ev = f.value_src(f"{rv} is None") is True
-            same_ev = False
-            if f.value_src(f"{rv} is {MAILBOX}") is True:
-                # the identity test must have been made under the pool lock
-                for nid, _l in path:
-                    t = cfg.nodes[nid]
-                    if t.kind == "test" and MAILBOX in unparse(t.ast) and LOCK in lexical_locks(repo, fi, t.owner if t.owner is not None else t.ast):
-                        same_ev = True
-            if f.value_src("self._shuttingdown") is True:
-                sd_exit = True
-            last = cfg.nodes[path[-2][0]] if len(path) >= 2 else fetch0[0]
-            ob.site(fi, last.ast, "loop exit path", reply_is_None=none_ev, reply_is_mailbox_under_lock=same_ev)
-            if not (none_ev or same_ev):
-                ob.violation(fi, last.ast, "the primary loop is left without evidence that the mailbox holds nothing unconsumed (neither `reply is None` nor `reply is self._primary_thread_task` under the lock)",
-                             construct="loop exit without mailbox evidence", path=cfg.describe_path(path))
+            after = st_.events[st_.events.index(waits_[-1]):]
+            fetches = [e for e in after if e.kind == "assign" and e.value[0] == "read" and e.value[2] == MAILBOX]
+            if not fetches:
+                if pth[-1][0] == cfg.exit.id:
+                    ob.violation(fi, fi.node, "the primary loop is left after a wake-up without looking at the mailbox", construct="exit without fetch")
+                continue
+            F = fetches[0].value
+            later = st_.events[st_.events.index(fetches[0]):]
+            # conditions established after the fetch, with the locks held when they were tested
+            c0 = fetches[0].ncond
+            conds = list(zip(st_.cond[c0:], st_.cond_held[c0:]))
+            none_ev = any(t == ("cmp", "is", F, _NONE) and v is True for ((t, v), _h) in conds)
+            same_ev = any(t[0] == "cmp" and t[1] == "is" and F in (t[2], t[3]) and any(x[0] == "read" and x[2] == MAILBOX and x != F for x in (t[2], t[3])) and v is True and LOCKT in h
+                          for ((t, v), h) in conds)
+            not_none = any(t == ("cmp", "is", F, _NONE) and v is False for ((t, v), _h) in conds)
+            runs = [e for e in later if e.kind == "call" and e.callee == "self._perform_spawn" and e.args[:1] == (F,)]
+            # ready.clear() only if no new task was posted (same task still in the mailbox, tested under the lock)
+            for e in later:
+                if e.kind == "call" and e.callee == f"{READY}.clear":
+                    cc = list(zip(st_.cond[c0:e.ncond], st_.cond_held[c0:e.ncond]))
+                    ok = LOCKT in e.held and any(t[0] == "cmp" and t[1] == "is" and F in (t[2], t[3]) and v is True and LOCKT in h and
+                                                 any(x[0] == "read" and x[2] == MAILBOX and x != F for x in (t[2], t[3])) for ((t, v), h) in cc)
+                    if id(e.node) not in seen_clear or not ok:
+                        seen_clear.add(id(e.node))
+                        ob.site(fi, e.node, "ready.clear() only if no new task was posted", ok=ok)
+                    if not ok:
+                        ob.violation(fi, e.node, "ready.clear() is not guarded by `reply is self._primary_thread_task` under the lock: a freshly posted task loses its wake-up")
+            end = pth[-1][0]
+            if end == cfg.exit.id:
+                n_exits += 1
+                if any(t[0] == "read" and t[2] == "self._shuttingdown" and v is True for ((t, v), _h) in conds):
+                    sd_exit = True
+                ob.site(fi, fi.node, "loop exit path", reply_is_None=none_ev, reply_is_mailbox_under_lock=same_ev)
+                if not (none_ev or same_ev):
+                    ob.violation(fi, fi.node, "the primary loop is left without evidence that the mailbox holds nothing unconsumed (neither `reply is None` nor `reply is self._primary_thread_task` under the lock)",
+                                 construct="loop exit without mailbox evidence", path=cfg.describe_path(pth))
+            if end == cfg.exit.id or (end in heads and pth[-1][1] != ""):
+                n_iter += 1
+                if not none_ev and not runs:
+                    ob.violation(fi, fetches[0].node, "a reply taken from the mailbox can be skipped without being executed", path=cfg.describe_path(pth))
+                if none_ev and runs:
+                    ob.violation(fi, fetches[0].node, "the primary loop runs a task although the mailbox was empty")
         ob.require(n_exits >= 2, f"{n_exits} exit paths of the primary loop (floor 2)")
-        clears = cfg_nodes_with_call(cfg, lambda c: callee_attr(c) == "clear")
-        for cl in clears:
-            f = Facts(repo, fi, al)
-            for (t, lab) in cfg.guards(cl.id):
-                if t.kind == "test":
-                    f.assume(t.ast, lab == "true")
-            ok = f.get(f"reply is {MAILBOX}") is True and LOCK in lexical_locks(repo, fi, cl.ast)
-            ob.site(fi, cl.ast, "ready.clear() only if no new task was posted", ok=ok)
-            if not ok:
-                ob.violation(fi, cl.ast, "ready.clear() is not guarded by `reply is self._primary_thread_task` under the lock: a freshly posted task loses its wake-up")
-        # every fetched reply is executed
-        fetch = [n for n in cfg.nodes if n.kind == "stmt" and isinstance(n.ast, ast.Assign)
-                 and nexpr(repo, fi, n.ast.value, al) == MAILBOX and n.id in cfg.live()]
-        ob.require(len(fetch) == 1, "mailbox fetch not found in the primary loop")
-        runs = cfg_nodes_with_call(cfg, lambda c: callee_attr(c) == "_perform_spawn")
-        none_edges = set()
-        for t in cfg.nodes:
-            if t.kind == "test" and Facts(repo, fi, al).atom(t.ast)[0] == "reply is None":
-                neg = Facts(repo, fi, al).atom(t.ast)[1]
-                none_edges |= cfg.out_edges(t.id, "false" if neg else "true")
-        waits = waits0
-        p = cfg.must_pass([fetch[0].id], [cfg.exit.id, cfg.raise_exit.id] + [w.id for w in waits],
-                          {r.id for r in runs}, none_edges)
-        ob.site(fi, fetch[0].ast, "every fetched non-None reply reaches _perform_spawn before the next wait / exit")
-        if p is not None:
-            ob.violation(fi, fetch[0].ast, "a reply taken from the mailbox can be skipped without being executed", path=cfg.describe_path(p))
-        # the wait precedes each fetch
-        ob.require(bool(waits), "ready.wait() missing in primary loop")
+        ob.require(n_iter >= 3, f"{n_iter} iteration paths of the primary loop (floor 3)")
         ob.site(fi, fi.node, "an exit guarded by _shuttingdown exists (busy primary leaves after shutdown)", ok=sd_exit)
         if not sd_exit:
             ob.violation(fi, fi.node, "no loop exit is taken when _shuttingdown is set after a task: the primary thread would never leave", construct="no-shutdown-exit")
